@@ -1677,7 +1677,11 @@ impl Vm {
             }
         }
 
-        let created_upvalue = Root::new(RefCell::new(ObjUpvalue::new(loc_addr as *mut _)));
+        let owner = self.fiber.as_ref().expect("Expected active fiber.").as_gc();
+        let created_upvalue = Root::new(RefCell::new(ObjUpvalue::with_owner(
+            loc_addr as *mut _,
+            owner,
+        )));
         if let Some(uv) = prev_upvalue {
             uv.borrow_mut().next = Some(created_upvalue.as_gc());
         } else {
